@@ -65,11 +65,11 @@ impl Type {
                         );
                     }
                     Value::Num(arr) => {
-                        if let Some(shape) =
-                            Option::<DynShape>::from_iter(arr.data.iter().copied().map(num_as_dim))
-                        {
-                            return Some(shape.with_scalar(Scalar::Any));
-                        }
+                        // Numbers can only be dimensions. Falling through would
+                        // come back here with the same value.
+                        let shape =
+                            Option::<DynShape>::from_iter(arr.data.iter().copied().map(num_as_dim))?;
+                        return Some(shape.with_scalar(Scalar::Any));
                     }
                     _ => {}
                 }
